@@ -10,6 +10,8 @@ import (
 	"os"
 	"os/exec"
 	"path/filepath"
+	"runtime"
+	"runtime/debug"
 	"strings"
 	"syscall"
 	"time"
@@ -177,7 +179,19 @@ func c02Supervise(c *Ctx) {
 			c02Case{Bytes: hex.EncodeToString(small), Stream: doc.Case.Stream})
 		return
 	}
-	c.Res.HarnessError = "harness child died twice without a reproducible input (see notes)"
+	// resource trouble of the test machine or of the harness itself, not of pprof: fall back to the
+	// quick-size run so that the property is still exercised; only if that dies too give up
+	c.Res.Notes = append(c.Res.Notes, "harness child died twice without a reproducible input: generated run repeated at quick size (thorough-only cases SKIPPED)")
+	os.Setenv("C02_FORCE_QUICK", "1")
+	defer os.Unsetenv("C02_FORCE_QUICK")
+	os.Remove(inflight)
+	if r, died, tail := c02RunChild(c, c.Replay, limit); !died {
+		c.c02Merge(r)
+		return
+	} else {
+		c.Res.Notes = append(c.Res.Notes, "quick-size fallback died too: "+tail)
+	}
+	c.Res.HarnessError = "harness child died three times without a reproducible input (see notes)"
 }
 
 func runC02(c *Ctx) {
@@ -189,6 +203,10 @@ func runC02(c *Ctx) {
 	// exhausting the machine
 	lim := syscall.Rlimit{Cur: 6 << 30, Max: 6 << 30}
 	syscall.Setrlimit(syscall.RLIMIT_AS, &lim)
+	debug.SetMemoryLimit(3 << 30) // keep the collector well below the address-space cap
+	if os.Getenv("C02_FORCE_QUICK") != "" {
+		c.Scale = 1
+	}
 	c.Res.Rule = c02Rule
 	classify := func(o *c02Outcome) (nontrivial bool) {
 		switch {
@@ -453,6 +471,15 @@ func runC02(c *Ctx) {
 		if o := c02CheckGenerated(c, bc.p, "z:"+bc.name); o != nil {
 			c.Res.Hit("stream:z:" + bc.name)
 			c.Res.Count(fmt.Sprintf("z:%s:%d", bc.name, len(raw)), true)
+		}
+	}
+	if scale > 1 && on("z") && !aborted {
+		for _, mk := range c02BigBoundaryCases() {
+			bc := mk()
+			c02BigBoundary(c, bc)
+			bc.p = nil
+			runtime.GC()
+			debug.FreeOSMemory()
 		}
 	}
 	for kind, set := range sizes {
